@@ -9,6 +9,8 @@
  *   6 pileup  posts pile up beyond the (small, harness-chosen) capacity of the notification pipe while
  *             nobody waits; then stop + join of the posting worker / stop of the posting timer; then drain
  *   7 event   platform_event_t: two waiters (timed / infinite) on one event, set() once
+ *   8 workers two workers alive at once, each polling async_worker_should_stop(async_worker_current());
+ *             stop + join each of them, in each order
  *   9 abba    scheduler self-test: lock-order inversion that needs one preemption
  *
  * Two builds of this file:
@@ -723,6 +725,63 @@ static void body_event (void) {
   (void) set_call;
 }
 
+/* ====================================================================== body 8: two workers */
+static async_worker_t *W2[2];
+static int w2_wrong[2], w2_runs[2];
+static void *w2_proc (void *ctx) {
+  int me = (int) (long) ctx;
+  for (;;) {
+    async_worker_t *cur = async_worker_current ();             /* as the console worker loop: not a captured handle */
+    async_worker_t *mine = __atomic_load_n (&W2[me], __ATOMIC_SEQ_CST);
+    if (mine && cur != mine) __atomic_store_n (&w2_wrong[me], 1, __ATOMIC_SEQ_CST);
+    if (async_worker_should_stop (cur)) break;
+    __atomic_add_fetch (&w2_runs[me], 1, __ATOMIC_SEQ_CST);
+    msleep (1);
+  }
+  return 0;
+}
+static void body_workers (void) {
+  g_bodyname = "workers";
+  /* order of the stop requests and joins: 0 = stop A, join A, stop B, join B; 1 = B first; 2 = stop A, stop B, join A, join B; 3 = stop B, stop A, join B, join A */
+  static const int ORD[4][4] = { { 0, 10, 1, 11 }, { 1, 11, 0, 10 }, { 0, 1, 10, 11 }, { 1, 0, 11, 10 } };
+  int v = choose_variant (4); g_variant = v;
+  memset (w2_wrong, 0, sizeof w2_wrong); memset (w2_runs, 0, sizeof w2_runs); W2[0] = W2[1] = 0;
+  begin ();
+  for (int i = 0; i < 2; i++) {
+    g_call = "async_worker_create";
+    async_worker_t *w = async_worker_create (w2_proc, (void *) (long) i, 0);
+    if (!w) { failf ("C19:harness:worker-create", "async_worker_create failed"); return; }
+    __atomic_store_n (&W2[i], w, __ATOMIC_SEQ_CST);
+  }
+  g_call = "sleep"; msleep (1); msleep (1);
+  int joined[2] = { 0, 0 };
+  char line[200]; int k = snprintf (line, sizeof line, "workers variant %d:", v);
+  for (int s4 = 0; s4 < 4; s4++) {
+    int a = ORD[v][s4], i = a % 10;
+    if (a < 10) { g_call = i ? "async_worker_signal_stop(B)" : "async_worker_signal_stop(A)"; async_worker_signal_stop (W2[i]); k += snprintf (line + k, sizeof line - (size_t) k, " stop(%c)", 'A' + i); }
+    else {
+      g_call = i ? "async_worker_join(B,50)" : "async_worker_join(A,50)";
+      int r = async_worker_join (W2[i], 50);
+      joined[i] = r;
+      k += snprintf (line + k, sizeof line - (size_t) k, " join(%c,50)=%s", 'A' + i, r ? "true" : "false");
+      if (g_selftest == 8) r = 0;
+      if (!r) failf ("C19:workers:stop-not-observed-join-times-out", "worker %c was told to stop and join(50) returned false while the other worker is %s (order %d)", 'A' + i,
+                     sched_finished (2 - i) ? "finished" : "alive", v);
+      else if (!sched_finished (1 + i)) failf ("C19:worker:join-true-but-thread-running", "join(%c) true, thread not finished", 'A' + i);
+    }
+  }
+  vx_obs ("%s ; rounds %d/%d", line, w2_runs[0], w2_runs[1]);
+  for (int i = 0; i < 2; i++) if (__atomic_load_n (&w2_wrong[i], __ATOMIC_SEQ_CST))
+    failf ("C19:workers:current-is-another-worker", "async_worker_current() called on worker %c's thread returned a different handle", 'A' + i);
+  /* clean up whatever a failed join left running */
+  for (int i = 0; i < 2; i++) if (!joined[i]) { g_call = "async_worker_join(-1)-cleanup"; async_worker_signal_stop (W2[i]); async_worker_join (W2[i], -1); }
+  g_call = "async_worker_destroy";
+  for (int i = 0; i < 2; i++) async_worker_destroy (W2[i]);
+  g_call = "-";
+  sched_end ();
+  vx_count (2, w2_runs[0] + w2_runs[1]);
+}
+
 /* ====================================================================== body 9: scheduler self-test */
 static platform_mutex_t mA, mB;
 static void *abba_fn (void *a) {
@@ -753,7 +812,7 @@ typedef struct { int body, variant; } elem;
 static elem EL[96];
 static int nEL;
 static long g_iters;
-static const char *bname (int b) { return b == 1 ? "post" : b == 2 ? "queue" : b == 3 ? "worker" : b == 4 ? "timer" : b == 5 ? "console" : b == 6 ? "pileup" : b == 7 ? "event" : "?"; }
+static const char *bname (int b) { return b == 1 ? "post" : b == 2 ? "queue" : b == 3 ? "worker" : b == 4 ? "timer" : b == 5 ? "console" : b == 6 ? "pileup" : b == 7 ? "event" : b == 8 ? "workers" : "?"; }
 static void describe (long i, char *buf, size_t len) { snprintf (buf, len, "free-running %s variant %d x %ld iterations", bname (EL[i].body), EL[i].variant, g_iters); }
 
 #include "c19_tsan.h"
@@ -802,6 +861,7 @@ static void body (void) {
   case 5: body_console (); break;
   case 6: body_pileup (); break;
   case 7: body_event (); break;
+  case 8: body_workers (); break;
   case 9: body_abba (); break;
   default: failf ("C19:harness:no-such-body", "body %d", g_body);
   }
@@ -825,8 +885,8 @@ int main (int argc, char **argv) {
 #ifdef C19_FREE
   g_iters = vx_opt_long ("iters", 300);
   g_watchdog_ms = vx_opt_long ("watchdog-ms", 0);
-  static const int nv[8] = { 0, NPOSTSPEC, 3, NWS, 4, 2, 3, 4 };
-  for (int b = 1; b <= 7; b++) for (int v = 0; v < nv[b]; v++) {
+  static const int nv[9] = { 0, NPOSTSPEC, 3, NWS, 4, 2, 3, 4, 4 };
+  for (int b = 1; b <= 8; b++) for (int v = 0; v < nv[b]; v++) {
     /* worker script 2 (timed join before the worker was told to stop) really hangs when run natively
      * (finding C19:worker:hang:main-in-async_worker_join(20)-before-stop); script 4 covers the same accesses */
     if (b == 3 && v == 2 && !vx_opt_long ("with-hanging-script", 0)) continue;
